@@ -189,6 +189,30 @@ pub fn run(args: &Args) -> Report {
                     }
                     Err(e) => rep.violation("C03|roundtrip-fails", &format!("{}: {e}", it.name), replay.clone()),
                 }
+                // the round trip is the identity on every well-typed value near the honest one as well:
+                // each vector emptied / cut to one element (an honest proof may legally carry an empty
+                // authentication list when every row of a small table is queried), each optional absent
+                {
+                    let base = serde_json::to_value(&it.proof).unwrap();
+                    let (_, arrays) = crate::mutate::enumerate(&base);
+                    for a in &arrays {
+                        for keep in [0usize, 1] {
+                            let mut v = base.clone();
+                            match crate::mutate::get_mut(&mut v, a).and_then(|x| x.as_array_mut()) {
+                                Some(arr) if arr.len() > keep => arr.truncate(keep),
+                                _ => continue,
+                            }
+                            let Ok(p1) = serde_json::from_value::<StarkProof>(v) else { continue };
+                            rep.inc("roundtrip.shape_variants");
+                            let back = serde_json::to_string(&p1).map_err(|e| e.to_string()).and_then(|s| serde_json::from_str::<StarkProof>(&s).map_err(|e| e.to_string()));
+                            match back {
+                                Ok(p2) if p2 == p1 => {}
+                                Ok(_) => rep.violation("C03|roundtrip-changes-proof", &format!("{}: serde round trip is not the identity once {} holds {keep} element(s)", it.name, crate::mutate::path_str(a)), replay.clone()),
+                                Err(e) => rep.violation("C03|roundtrip-fails", &format!("{}: with {} cut to {keep} element(s): {e}", it.name, crate::mutate::path_str(a)), replay.clone()),
+                            }
+                        }
+                    }
+                }
             }
             (Expect::Accept, Ok(Err(e))) => rep.violation("C03|honest-rejected", &format!("{} rejected by its matching build/layout: {e}", it.name), replay),
             (Expect::Accept, Err(p)) => rep.violation("C03|honest-panicked", &format!("{} panicked under its matching build: {}:{} {}", it.name, p.file, p.line, p.msg), replay),
